@@ -62,9 +62,9 @@ Notation POSTO := (posto maxvec cap_txin cap_txout cap_vecu8 cap_h32 pt_ok pk_ok
 Notation SER := (pset_serialize maxvec cap_txin cap_txout cap_vecu8 cap_h32 pt_ok pk_ok xonly_ok btctx_ok xpub_ok Hrip Hsha Hh160 Hh256 Hleaf Hbranch).
 Notation DESER := (pset_deserialize maxvec cap_txin cap_txout cap_vecu8 cap_h32 pt_ok pk_ok xonly_ok btctx_ok xpub_ok Hrip Hsha Hh160 Hh256 Hleaf Hbranch).
 
-(* every row built from a descriptor whose key type is not TapTree satisfies the row laws *)
-Lemma row_of_desc_ok d : ty_of_name (d_kty d) <> TyTapTree -> row_ok (row_of_desc d).
-Proof. intros NK. unfold PsetTables.row_of_desc. split; cbn [r_kcanon r_vcanon r_disc r_addr r_kind].
+(* every row built from a descriptor satisfies the row laws *)
+Lemma row_of_desc_ok d : row_ok (row_of_desc d).
+Proof. unfold PsetTables.row_of_desc. split; cbn [r_kcanon r_vcanon r_disc r_addr r_kind].
   - intros kd k H. destruct (mode_of (d_mode d));
       try (eapply kcanon_law; eauto; fail);
       (unfold whole_key in *; destruct kd; [discriminate|]; inversion H; subst; repeat split; try discriminate; lia).
@@ -73,78 +73,34 @@ Proof. intros NK. unfold PsetTables.row_of_desc. split; cbn [r_kcanon r_vcanon r
       try (eapply key_proj_inj; eauto; fail); try (eapply proj_prop_inj; eauto; fail). unfold proj_bytes in P. now inversion P.
   - intros A. destruct (mode_of (d_mode d)); destruct A as [A|A]; try discriminate A; (split; [reflexivity|]); intros kd Hk; unfold whole_key; (destruct kd; [now elim Hk|reflexivity]). Qed.
 
-Lemma rows_ok_map ds : Forall (fun d => ty_of_name (d_kty d) <> TyTapTree) ds -> rows_ok (map row_of_desc ds).
-Proof. intros F i r H. apply nth_error_In in H. apply in_map_iff in H as (d & <- & I). rewrite Forall_forall in F. apply row_of_desc_ok. now apply F. Qed.
-Lemma v_idem_desc d : ty_of_name (d_vty d) <> TyTapTree -> v_idem (row_of_desc d).
-Proof. intros NV k v c. unfold PsetTables.row_of_desc. cbn [r_vcanon]. destruct (mode_of (d_mode d)); try (apply vcanon_idem; exact NV); intros H; inversion H; subst; reflexivity. Qed.
+Lemma rows_ok_map ds : rows_ok (map row_of_desc ds).
+Proof. intros i r H. apply nth_error_In in H. apply in_map_iff in H as (d & <- & I). apply row_of_desc_ok. Qed.
+(* every value canoniser is idempotent (TapTree included since fix aee9a45: Deserialize then Serialize is the identity on it) *)
+Lemma v_idem_desc d : v_idem (row_of_desc d).
+Proof. intros k v c. unfold PsetTables.row_of_desc. cbn [r_vcanon]. destruct (mode_of (d_mode d)); try (apply vcanon_idem); intros H; inversion H; subst; reflexivity. Qed.
 
-Lemma in_combine_seq {A} (l : list A) : forall j d s, nth_error l j = Some d -> In ((s + j)%nat, d) (List.combine (seq s (length l)) l).
-Proof. induction l as [|x l IH]; intros j d s H; [destruct j; discriminate|]. destruct j as [|j]; cbn in *.
-  - inversion H; subst. left. f_equal. lia.
-  - right. replace (s + S j)%nat with (S s + j)%nat by lia. now apply IH. Qed.
-Lemma not_taptree t : is_taptree t = false -> t <> TyTapTree. Proof. intros H ->. discriminate. Qed.
-
-(* what the kernel computes on the generated tables *)
-Hypothesis TOK : taptree_only = true.
-
-Lemma kty_fine_g : Forall (fun d => ty_of_name (d_kty d) <> TyTapTree) C07_GLOBAL_FIELDS /\ Forall (fun d => ty_of_name (d_vty d) <> TyTapTree) C07_GLOBAL_FIELDS /\
-                   Forall (fun d => ty_of_name (d_kty d) <> TyTapTree) C07_INPUT_FIELDS /\ Forall (fun d => ty_of_name (d_vty d) <> TyTapTree) C07_INPUT_FIELDS.
-Proof. unfold taptree_only in TOK. apply andb_true_iff in TOK as [A _]. rewrite forallb_forall in A.
-  assert (X : forall d, In d (C07_GLOBAL_FIELDS ++ C07_INPUT_FIELDS) -> ty_of_name (d_kty d) <> TyTapTree /\ ty_of_name (d_vty d) <> TyTapTree).
-  { intros d I. specialize (A d I). apply andb_true_iff in A as [A1 A2]. apply negb_true_iff in A1, A2. split; now apply not_taptree. }
-  repeat split; apply Forall_forall; intros d I; apply X; apply in_or_app; auto. Qed.
-Lemma fine_o : Forall (fun d => ty_of_name (d_kty d) <> TyTapTree) C07_OUTPUT_FIELDS /\
-               forall j d, nth_error C07_OUTPUT_FIELDS j = Some d -> j <> idx_taptree -> ty_of_name (d_vty d) <> TyTapTree.
-Proof. unfold taptree_only in TOK. apply andb_true_iff in TOK as [_ B]. rewrite forallb_forall in B.
-  assert (X : forall j d, nth_error C07_OUTPUT_FIELDS j = Some d -> In (j, d) (List.combine (seq 0 (length C07_OUTPUT_FIELDS)) C07_OUTPUT_FIELDS)).
-  { intros j d H. apply (in_combine_seq C07_OUTPUT_FIELDS j d 0%nat H). }
-  split.
-  - apply Forall_forall. intros d I. apply In_nth_error in I as [j H]. specialize (B _ (X _ _ H)). cbn [fst snd] in B.
-    apply andb_true_iff in B as [B1 _]. apply negb_true_iff in B1. now apply not_taptree.
-  - intros j d H NJ. specialize (B _ (X _ _ H)). cbn [fst snd] in B. apply andb_true_iff in B as [_ B2]. apply orb_true_iff in B2 as [B2|B2].
-    + apply negb_true_iff in B2. now apply not_taptree.
-    + apply Nat.eqb_eq in B2. contradiction. Qed.
-
-Lemma ROg : rows_ok TG. Proof. unfold PsetTables.Tg. apply (rows_ok_map C07_GLOBAL_FIELDS). exact (proj1 kty_fine_g). Qed.
-Lemma ROi : rows_ok TI. Proof. unfold PsetTables.Ti. apply (rows_ok_map C07_INPUT_FIELDS). exact (proj1 (proj2 (proj2 kty_fine_g))). Qed.
-Lemma ROo : rows_ok TO. Proof. unfold PsetTables.To. apply (rows_ok_map C07_OUTPUT_FIELDS). exact (proj1 fine_o). Qed.
+Lemma ROg : rows_ok TG. Proof. unfold PsetTables.Tg. apply (rows_ok_map C07_GLOBAL_FIELDS). Qed.
+Lemma ROi : rows_ok TI. Proof. unfold PsetTables.Ti. apply (rows_ok_map C07_INPUT_FIELDS). Qed.
+Lemma ROo : rows_ok TO. Proof. unfold PsetTables.To. apply (rows_ok_map C07_OUTPUT_FIELDS). Qed.
 
 Definition Gall (_ : nat) : Prop := True.
-Definition Gout (j : nat) : Prop := j <> idx_taptree.
-Lemma GIg j r : nth_error TG j = Some r -> Gall j -> v_idem r.
-Proof. intros H _. unfold PsetTables.Tg in H. rewrite nth_error_map in H. revert H. match goal with |- context [option_map _ ?X] => destruct X as [d|] eqn:E end; cbn [option_map]; intros H; [|discriminate H]. injection H as <-.
-  apply v_idem_desc. destruct kty_fine_g as (_ & F & _). rewrite Forall_forall in F. apply F. eapply nth_error_In; eauto. Qed.
-Lemma GIi j r : nth_error TI j = Some r -> Gall j -> v_idem r.
-Proof. intros H _. unfold PsetTables.Ti in H. rewrite nth_error_map in H. revert H. match goal with |- context [option_map _ ?X] => destruct X as [d|] eqn:E end; cbn [option_map]; intros H; [|discriminate H]. injection H as <-.
-  apply v_idem_desc. destruct kty_fine_g as (_ & _ & _ & F). rewrite Forall_forall in F. apply F. eapply nth_error_In; eauto. Qed.
-Lemma GIo j r : nth_error TO j = Some r -> Gout j -> v_idem r.
-Proof. intros H NJ. unfold PsetTables.To in H. rewrite nth_error_map in H. revert H. match goal with |- context [option_map _ ?X] => destruct X as [d|] eqn:E end; cbn [option_map]; intros H; [|discriminate H]. injection H as <-.
-  apply v_idem_desc. destruct fine_o as [_ F]. eapply F; eauto. Qed.
+Lemma GI_map ds j r : nth_error (map row_of_desc ds) j = Some r -> Gall j -> v_idem r.
+Proof. intros H _. apply nth_error_In in H. apply in_map_iff in H as (d & <- & I). apply v_idem_desc. Qed.
+Lemma GIg j r : nth_error TG j = Some r -> Gall j -> v_idem r. Proof. unfold PsetTables.Tg. apply GI_map. Qed.
+Lemma GIi j r : nth_error TI j = Some r -> Gall j -> v_idem r. Proof. unfold PsetTables.Ti. apply GI_map. Qed.
+Lemma GIo j r : nth_error TO j = Some r -> Gall j -> v_idem r. Proof. unfold PsetTables.To. apply GI_map. Qed.
 
 (* ---------------------------------------------------------------- the statements of the property *)
 Definition wf_pset_c : pset -> Prop := wf_pset maxvec TG TI TO POSTG POSTI POSTO n_inputs n_outputs C07_PSET_CAP.
-(* every tap_tree value stored in an output is a fixed point of the TapTree canoniser (true of single-leaf trees; false of
-   every tree with two or more leaves: finding F9) *)
-Definition taptrees_stable (p : pset) : Prop :=
-  Forall (fun m => Forall (fun e => slot e = idx_taptree -> vfixed TO e) m) (p_outputs p).
-
-Definition no_taptree (p : pset) : bool := forallb (forallb (fun e => negb (Nat.eqb (slot e) idx_taptree))) (p_outputs p).
-Lemma no_taptree_stable p : no_taptree p = true -> taptrees_stable p.
-Proof. unfold no_taptree, taptrees_stable. rewrite forallb_forall, Forall_forall. intros H m Hm. specialize (H m Hm).
-  rewrite forallb_forall in H. apply Forall_forall. intros e He E. specialize (H e He). rewrite E, Nat.eqb_refl in H. discriminate. Qed.
-Lemma stable_fixed p : taptrees_stable p -> pset_fixed TG TI TO Gall Gall Gout p.
-Proof. intros S. split; [|split].
-  - apply Forall_forall. intros e _. left. exact I.
-  - apply Forall_forall. intros m _. apply Forall_forall. intros e _. left. exact I.
-  - unfold taptrees_stable in S. rewrite Forall_forall in *. intros m Hm. specialize (S m Hm). unfold pmap_ok. rewrite Forall_forall in *. intros e He.
-    destruct (Nat.eq_dec (slot e) idx_taptree) as [E|NE]; [right; now apply S|left; exact NE]. Qed.
+Lemma all_fixed p : pset_fixed TG TI TO Gall Gall Gall p.
+Proof. split; [|split]; repeat (apply Forall_forall; intros); left; exact I. Qed.
 
 Theorem rt_c p : wf_pset_c p -> DESER (SER p) = POk p.
 Proof. apply pset_rt; assumption. Qed.
-Theorem deserialize_wf_c bs p : DESER bs = POk p -> taptrees_stable p -> wf_pset_c p.
-Proof. intros H S. eapply (deserialize_wf maxvec Hmax Hmin TG TI TO POSTG POSTI POSTO n_inputs n_outputs C07_PSET_CAP ROg ROi ROo Gall Gall Gout GIg GIi GIo); eauto. now apply stable_fixed. Qed.
-Theorem fixpoint_c bs p : DESER bs = POk p -> taptrees_stable p -> DESER (SER p) = POk p.
-Proof. intros H S. apply rt_c. eapply deserialize_wf_c; eauto. Qed.
+Theorem deserialize_wf_c bs p : DESER bs = POk p -> wf_pset_c p.
+Proof. intros H. eapply (deserialize_wf maxvec Hmax Hmin TG TI TO POSTG POSTI POSTO n_inputs n_outputs C07_PSET_CAP ROg ROi ROo Gall Gall Gall GIg GIi GIo); eauto. apply all_fixed. Qed.
+Theorem fixpoint_c bs p : DESER bs = POk p -> DESER (SER p) = POk p.
+Proof. intros H. apply rt_c. eapply deserialize_wf_c; eauto. Qed.
 Theorem counts_c bs p : DESER bs = POk p -> sanity_check n_inputs n_outputs p = true.
 Proof. apply (deserialize_counts maxvec Hmax Hmin TG TI TO POSTG POSTI POSTO n_inputs n_outputs C07_PSET_CAP ROi ROo). Qed.
 
@@ -166,20 +122,14 @@ Proof. intros H l. induction l; constructor; auto. Qed.
 Lemma pset_equiv_refl p : pset_equiv maxvec Hleaf Hbranch p p.
 Proof. assert (E : forall b e, entry_equiv maxvec Hleaf Hbranch b e e) by (intros; repeat split; auto).
   repeat split; repeat (apply Forall2_refl; intros); apply E. Qed.
-(* the full conclusion of the fixpoint clause, for PSETs outside the F9 class *)
-Theorem fixpoint_full_c bs p : DESER bs = POk p -> taptrees_stable p ->
+(* the full conclusion of the fixpoint clause, for every accepted byte string *)
+Theorem fixpoint_full_c bs p : DESER bs = POk p ->
   let c := SER p in exists p', DESER c = POk p' /\ pset_equiv maxvec Hleaf Hbranch p' p /\ SER p' = c.
-Proof. intros H S c. exists p. split; [now apply (fixpoint_c bs)|]. split; [apply pset_equiv_refl|reflexivity]. Qed.
-
-(* a single-leaf tap tree is a fixed point of the canoniser *)
-Lemma taptree_single v s : leafver_ok (b2n v) = true -> N.of_nat (length s) <= maxvec ->
-  canon_taptree maxvec Hleaf Hbranch (x00 :: v :: enc (c_varbytes maxvec) s) = POk (x00 :: v :: enc (c_varbytes maxvec) s).
-Proof. intros LV Ls. unfold canon_taptree, taptree_node.
-  assert (W : wf (c_varbytes maxvec) s = true) by (cbn; apply andb_true_iff; split; lia).
-  pose proof (l_complete (c_varbytes_lawful maxvec) s [] W) as D. rewrite app_nil_r in D.
-  cbn [length taptree_items]. rewrite D, LV. assert (T0 : forall f, taptree_items maxvec (S f) [] = Some []) by reflexivity. try rewrite T0. cbn [taptree_items].
-  change (run Hleaf Hbranch [ILeaf (b2n x00) s v] []) with (@Ok berr br [Some (new_leaf Hleaf s v)]).
-  unfold taptree_ser, new_leaf. cbn [n_leaves flat_map l_branch l_ver l_script length N.of_nat]. now rewrite app_nil_r. Qed.
+Proof. intros H c. exists p. split; [now apply (fixpoint_c bs)|]. split; [apply pset_equiv_refl|reflexivity]. Qed.
+(* no field of a table is assigned without a duplicate test (KOptLast): then duplicate rejection covers every key *)
+Definition no_optlast (T : table) : bool := forallb (fun r => match r_kind r with KOptLast => false | _ => true end) T.
+Lemma no_optlast_row T i r : no_optlast T = true -> nth_error T i = Some r -> r_kind r <> KOptLast.
+Proof. unfold no_optlast. rewrite forallb_forall. intros F H E. specialize (F r (nth_error_In _ _ H)). now rewrite E in F. Qed.
 
 (* text form *)
 Definition to_string (p : pset) : bytes := b64_enc (SER p).
